@@ -103,7 +103,7 @@ class Scheduler:
         w = self.by_ident.get(threading.get_ident())
         if w is None:
             return None
-        w['where'] = (code.co_name, lineno)
+        w['where'] = (code.co_name, lineno, code.co_filename)
         self.park()
         return None
 
